@@ -139,7 +139,28 @@ def r4_by_ref_exact(ctx, T, rule="C12.R4"):
                "reference is accepted with a merely castable type, and the callee's value of the "
                "parameter type is written back into the caller's variable"
                % (sorted(by_ref_variants), sorted(mixed)))
-    ctx.require(rule, 25 + 5 + 3)
+    # end to end: the by-reference check itself, for each form an argument passed by reference can
+    # take, refuses every pair of different built-in types (the predicate above is only one of its parts)
+    rpt = [a for a in prog.adts.values() if a["path"].endswith("::ResolvedParamType")]
+    if len(rpt) != 1:
+        raise CheckError("anchor ResolvedParamType")
+    slot = {"Variable": 1, "ArrayElement": 2, "Property": 2}
+    for form in ("Variable", "ArrayElement", "Property"):
+        for q1 in ALLQ:
+            for q2 in ALLQ:
+                e = T.eng.make(ot.EXPR, form, {slot[form]: T.eng.make(ET, "BuiltIn", {0: tf.Tag(ot.TQ, q1)})})
+                a = T.eng.make(ot.POS, "Positioned", {0: e})
+                pt = T.eng.make(rpt[0]["id"], "BuiltIn", {0: tf.Tag(ot.TQ, q2)})
+                rs = {tf.shape(x).split("(")[0] for x in T.eng.summary(by_ref, (tf.Ref(a), tf.Ref(pt)))}
+                ok = ("Ok" in rs) if q1 == q2 else (rs == {"Err"})
+                ctx.decide(ok, rule, "%s:by-ref-check(%s,%s,%s)" % (rule, form, q1, q2), by_ref.loc,
+                           "verdicts %s" % sorted(rs),
+                           "an Expression::%s of type %s passed by reference to a %s parameter: lint_by_ref_arg "
+                           "yields %s%s" % (form, q1, q2, sorted(rs),
+                                            " - accepted, and the callee's value of the parameter type is written "
+                                            "back unconverted into the caller's variable" if q1 != q2 else
+                                            " - a correct call is refused"))
+    ctx.require(rule, 25 + 5 + 3 + 75)
 
 
 def r5_condition_typing(ctx, T, rule="C12.R5"):
